@@ -137,6 +137,7 @@ class Molecule(object):
 
         self.name = name
         self.cell_volume = cell_volume
+        self.density = H.density
         self.sld, self.Dsld = neutron_sld(H)[0], neutron_sld(D)[0]
         self.mass, self.Dmass = H.mass, D.mass
         self.D2Omatch = D2Omatch(self.sld, self.Dsld)
